@@ -353,6 +353,10 @@ fn run_inner<K: KeyLike>(case: &Case, prop: Prop, keep_trace: bool, keys: &[u16]
                         format!("step {i} {op:?}: the model defines the outcome {:?} but the call panicked at {loc}: {msg}", exp),
                     ));
                 }
+                if prop == Prop::C14 && matches!(op, Op::Iter { .. }) {
+                    // every consumption path is defined on the Vec iterator of the same items
+                    return Err(vio(prop, i, kind, op, &format!("iter-{}", panic_class(&loc)), format!("step {i} {op:?}: walking / consuming the iterator panicked at {loc}: {msg} (the same steps on a Vec iterator of the same items are well defined)")));
+                }
                 if matches!(prop, Prop::C03 | Prop::C04) {
                     // the panic itself belongs to C05, but what the library touched on the way
                     // to it (dead, freed or never initialised objects) is a memory-safety finding
